@@ -18,14 +18,60 @@ SUITES = {
     "PARSE-TYPED": parse_suite("typed", 3, 4),
 }
 
+FORMAT_INVS = ["C09_BuildOk", "C03_Render", "C09_ParseBack", "C04_Valid", "Emit"]
+
+
+def format_suite(mode_q, mode_t):
+    return dict(module="MC_Format", kind="bfs", invariants=FORMAT_INVS,
+                quick=dict(MODE='"%s"' % mode_q), thorough=dict(MODE='"%s"' % mode_t),
+                describe="one component position holds a character / pair of characters; build, Display, parse back")
+
+
+BUILDER_INVS = ["C09_Faithful", "C09_Expected", "C04_Valid", "C09_ParseBack", "C03_Render", "C10_Rebuild",
+                "C09_Commute", "C09_Override", "C13_Finish", "EmitBuild"]
+
+
+def builder_suite(shape):
+    base = dict(SHAPE='"%s"' % shape, ORDER='"code"', HIST="FALSE", DEPTH=0)
+    return dict(module="MC_Builder", kind="bfs", spec="Spec", invariants=BUILDER_INVS, constraints=["Small"],
+                quick=dict(base, SIZE='"q"', K=2, CK=1), thorough=dict(base, SIZE='"t"', K=3, CK=1),
+                describe="all builder states with at most K optional fields set over a small universe x every setter "
+                         "(one case per transition) and build() from every state (4-step pipeline)")
+
+
+def builder_sim(shape):
+    base = dict(SHAPE='"%s"' % shape, ORDER='"code"', HIST="TRUE", SIZE='"t"', K=99, CK=0)
+    return dict(module="MC_Builder", kind="simulate", spec="Spec",
+                invariants=["C09_Faithful", "C09_Expected", "C04_Valid", "C09_ParseBack", "C10_Rebuild", "EmitSeq"],
+                quick=dict(base, DEPTH=8), thorough=dict(base, DEPTH=14),
+                simulate=dict(quick="num=300", thorough="num=4000"),
+                describe="random call sequences (TLC -simulate) of setters followed by build(), replayed on a live builder")
+
+
+SUITES.update({
+    "FORMAT-1": format_suite("single", "single"),
+    "FORMAT-2": format_suite("pairs", "allpairs"),
+    "BUILDER-G": builder_suite("generic"),
+    "BUILDER-T": builder_suite("typed"),
+    "BUILDER-SIM-G": builder_sim("generic"),
+    "BUILDER-SIM-T": builder_sim("typed"),
+})
+
 # drivers: name -> dict(trace module, events per tier)
 DRIVERS = {
 }
 
+PARSE_ALL = ["PARSE-SEP", "PARSE-PATH", "PARSE-QUAL", "PARSE-TYPED"]
+BUILD_ALL = ["BUILDER-G", "BUILDER-T", "BUILDER-SIM-G", "BUILDER-SIM-T"]
 PROPS = {
-    "C01": dict(suites=["PARSE-SEP", "PARSE-QUAL", "PARSE-PATH", "PARSE-TYPED"], drivers=[]),
-    "C02": dict(suites=["PARSE-SEP", "PARSE-PATH", "PARSE-QUAL", "PARSE-TYPED"], drivers=[]),
-    "C05": dict(suites=["PARSE-SEP", "PARSE-PATH", "PARSE-QUAL", "PARSE-TYPED"], drivers=[]),
+    "C01": dict(suites=PARSE_ALL + ["FORMAT-1"], drivers=[]),
+    "C02": dict(suites=PARSE_ALL, drivers=[]),
+    "C03": dict(suites=["FORMAT-1", "FORMAT-2", "PARSE-QUAL", "BUILDER-G"], drivers=[]),
+    "C04": dict(suites=PARSE_ALL + BUILD_ALL, drivers=[]),
+    "C05": dict(suites=PARSE_ALL, drivers=[]),
+    "C09": dict(suites=BUILD_ALL + ["FORMAT-1", "FORMAT-2"], drivers=[]),
+    "C10": dict(suites=PARSE_ALL + ["BUILDER-G", "BUILDER-T", "FORMAT-1"], drivers=[]),
+    "C13": dict(suites=["PARSE-SEP", "PARSE-PATH", "BUILDER-G", "BUILDER-SIM-G", "FORMAT-1"], drivers=[]),
 }
 
 ASSUMPTIONS_COMMON = [
